@@ -644,6 +644,15 @@ def r14_9(ctx):
                     waits.append(bb)
     if not waits:
         raise AnchorError("SubprocessRunner::run: no Popen::wait call")
+    # the bounded wait gets what is *left* of the limit: its argument is the limit minus the time since the start (taken before the output was read)
+    orr_ = Origins(r)
+    for wb, wt_ in [(bb, t) for bb, t in r.calls() if mname(t) == "Popen::wait_timeout"]:
+        tree = orr_.operand(wt_["args"][1])
+        names = {method_name(c).split("::")[-1] for c in tree.call_names()}
+        ok_ = bool(names & {"saturating_sub", "checked_sub", "sub"}) and bool(names & {"elapsed", "duration_since", "saturating_duration_since", "checked_duration_since"})
+        ctx.check(ok_, "bounded-wait-gets-remainder", r.loc(wb), "wait_timeout receives the limit minus the elapsed time",
+                  "wait_timeout receives %s: the wait for the exit status starts a fresh limit after the output was read - a command that closes its streams shortly "
+                  "before the limit runs for nearly twice as long and is reported with its normal exit code" % tree.show()[:120])
     # the Some edge(s) of `testcase.config.timeout` from which the read is reachable or that follow it
     some_edges = []
     for sb, st in switches(r):
